@@ -262,6 +262,11 @@ def run_case(ctx, g, rng):
             ("named-from_curie", lambda: api.NamedReference.from_curie(f"{p}:1", "n", converter=conv)),
             ("model_validate-str-ctxdict", lambda: api.Reference.model_validate(f"{p}:1", context={"converter": conv})),
             ("from_reference", lambda: api.NamableReference.from_reference(api.Reference(prefix=p, identifier="1"), converter=conv)),
+            # (the source may already be an instance of the target class, or of a subclass of it - seed C15-S: pydantic
+            #  hands such an instance back unvalidated)
+            ("from_reference-same-class", lambda: api.Reference.from_reference(api.Reference(prefix=p, identifier="1"), converter=conv)),
+            ("from_reference-named-same-class", lambda: api.NamedReference.from_reference(api.NamedReference(prefix=p, identifier="1", name="n"), converter=conv)),
+            ("from_reference-from-subclass", lambda: api.Reference.from_reference(api.NamableReference(prefix=p, identifier="1", name=None), converter=conv)),
         ]
         if "|" not in p:
             ways.append(("from_curie-custom-sep", lambda: api.Reference.from_curie(f"{p}|1", sep="|", converter=conv)))
